@@ -179,6 +179,12 @@ package action
 //@   ensures [dry-run-no-cluster-mutation] old(upgradeDryRun(u)) ==> Kmutated == old(Kmutated)
 //@   ensures [dry-run-no-storage-write] old(upgradeDryRun(u)) ==> Dwritten == old(Dwritten)
 //@   ensures [selectors-unchanged] upgradeDryRun(u) == old(upgradeDryRun(u))
+//@   ensures [C07] [ownership-check-before-mutation] !old(GownershipChecked) && (Kmutated != old(Kmutated) || Dwritten != old(Dwritten)) ==> GownershipChecked
+//@   loop 1 invariant [C07] [existing-keys] existingResources != nil && (forall j int :: 0 <= j && j < #iter ==> has(existingResources, objKeyOf(current[j])) && existingResources[objKeyOf(current[j])])
+//@   loop 1 invariant [C07] [only-existing] forall k string :: has(existingResources, k) ==> existingResources[k] && (exists j int :: 0 <= j && j < #iter && objKeyOf(current[j]) == k)
+//@   loop 2 invariant [C07] [new-collected] forall j int :: 0 <= j && j < #iter && !(exists c int :: 0 <= c && c < len(current) && objKeyOf(current[c]) == objKeyOf(target[j])) ==> (exists t int :: 0 <= t && t < len(toBeCreated) && toBeCreated[t] == target[j])
+//@   loop 2 invariant [C07] [only-new] forall t int :: 0 <= t && t < len(toBeCreated) ==> (exists j int :: 0 <= j && j < #iter && toBeCreated[t] == target[j]) && !(exists c int :: 0 <= c && c < len(current) && objKeyOf(current[c]) == objKeyOf(toBeCreated[t]))
+//@   loop 2 invariant [C07] [keys-frozen] existingResources != nil && (forall j int :: 0 <= j && j < len(current) ==> has(existingResources, objKeyOf(current[j])) && existingResources[objKeyOf(current[j])]) && (forall k string :: has(existingResources, k) ==> existingResources[k] && (exists j int :: 0 <= j && j < len(current) && objKeyOf(current[j]) == k))
 
 //@ func (*Upgrade).RunWithContext
 //@   props C06
@@ -242,3 +248,29 @@ package action
 //@   loop 1 invariant [distinct] forall a, b int :: 0 <= a && a < b && b < len(hist) ==> hist[a].Version != hist[b].Version && hist[a] != hist[b] && hist[a].Info != hist[b].Info
 //@   loop 1 invariant [covers] forall v int :: Dex[mkkey(rel.Name, v)] ==> (exists j int :: 0 <= j && j < len(hist) && hist[j].Version == v)
 //@   loop 1 invariant [next] rel.Version == last.Version + 1 && last == hist[0] && len(hist) > 0 && aboveAll(rel.Name, rel.Version)
+
+// ---- C07 (2): which resources of an upgrade are new, and the ownership check before any mutation
+
+//@ ghost var GownershipChecked bool
+//@ ghost var GownershipList kube.ResourceList
+//@ ghost func objKeyOf(r *resource.Info) string = sprintf4("%s/%s/%s/%s", box(gvStr(gvOf(gvkOf(okind(r.Object))))), box(gvkOf(okind(r.Object)).Kind), box(r.Namespace), box(r.Name))
+
+//@ func objectKey
+//@   props C07
+//@   requires r != nil && r.Object != nil
+//@   pure
+//@   ensures [group-version-kind-namespace-name] result == objKeyOf(r)
+
+//@ func existingResourceConflict
+//@   props C07
+//@   trusted
+//@   modifies GownershipChecked, GownershipList
+//@   ensures result1 == nil ==> GownershipChecked && GownershipList == resources
+//@   ensures Kmutated == old(Kmutated) && Dwritten == old(Dwritten)
+
+//@ func requireAdoption
+//@   props C07
+//@   trusted
+//@   modifies GownershipChecked, GownershipList
+//@   ensures result1 == nil ==> GownershipChecked && GownershipList == resources
+//@   ensures Kmutated == old(Kmutated) && Dwritten == old(Dwritten)
